@@ -8,8 +8,9 @@
 
 namespace c03 {
 
-static const char* const FRONT_ARG[10] = {"unsigned char**", "char**", "const unsigned char**", "const char**", "vector<char*>&",
-                                          "vector<unsigned char*>&", "vector<const char*>&", "vector<const unsigned char*>&", "std::string*",
+// (no blanks: signatures must be single tokens for known-findings.txt)
+static const char* const FRONT_ARG[10] = {"unsigned_char**", "char**", "const_unsigned_char**", "const_char**", "vector<char*>&",
+                                          "vector<unsigned_char*>&", "vector<const_char*>&", "vector<const_unsigned_char*>&", "std::string*",
                                           "vector<std::string>&"};
 static const char* const FRONT_SET[10] = {"UCharStringSet", "UCharStringSet", "CUCharStringSet", "CUCharStringSet", "UCharStringSet",
                                           "UCharStringSet", "CUCharStringSet", "CUCharStringSet", "StdStringSet", "StdStringSet"};
